@@ -2155,3 +2155,166 @@ M("C10", "rf/fast-alignment-generator-removes-from-self", CONT,
                         copy.remove(annotator, unit)  # Now we remove the units from the chosen alignment.""",
   """                    if unit is not None:
                         self.remove(annotator, unit)""", "R-C1")
+
+# =============================================================================================
+# round 5: dispatched entry points, sampler initialisation, the unitary record, shared kernels
+# =============================================================================================
+_COMB_D = """    def d(self, unit1: 'Unit', unit2: 'Unit'):
+        return (self.alpha * self.positional_dissim.d(unit1, unit2)
+                + self.beta * self.categorical_dissim.d(unit1, unit2))"""
+M("C02", "entry/override-delegates-to-component", DIS, _COMB_D,
+  """    def valid_alignments(self, continuum):
+        if self.alpha == 0:
+            return self.categorical_dissim.valid_alignments(continuum)
+        return super().valid_alignments(continuum)
+
+""" + _COMB_D, "R-C02-2", "candidates costed by the component's kernel and delta_empty")
+M("C03", "entry/compute-disorder-override-delegates", DIS, _COMB_D,
+  """    def compute_disorder(self, alignment):
+        if self.beta == 0:
+            return self.positional_dissim.compute_disorder(alignment)
+        return super().compute_disorder(alignment)
+
+""" + _COMB_D, "R-C03-2")
+B("C02", "entry/override-defers-to-super", DIS, _COMB_D,
+  """    def valid_alignments(self, continuum):
+        logging.debug("enumerating the candidates")
+        return super().valid_alignments(continuum)
+
+""" + _COMB_D, "an override that only defers to super() is the same program")
+B("C03", "entry/compute-disorder-override-defers", DIS, _COMB_D,
+  """    def compute_disorder(self, alignment):
+        return super().compute_disorder(alignment)
+
+""" + _COMB_D)
+_STAT_INIT = """        super().init_sampling(reference_continuum, ground_truth_annotators)
+        self._set_gap_information()"""
+M("C05", "sampler-init/early-return-same-reference", SAM, _STAT_INIT,
+  """        if reference_continuum is self._reference_continuum:
+            return
+""" + _STAT_INIT, "R-C05-2", "the ground truth of the second call is dropped")
+M("C15", "sampler-init/estimators-skipped-when-measured", SAM, _STAT_INIT,
+  """        super().init_sampling(reference_continuum, ground_truth_annotators)
+        if self._avg_gap is not None:
+            return
+        self._set_gap_information()""", "R-C15-3", "a sampler initialised twice keeps the first reference's statistics")
+M("C05", "sampler-init/base-skips-ground-truth", SAM,
+  """        self._reference_continuum = reference_continuum
+        if ground_truth_annotators is None:""",
+  """        self._reference_continuum = reference_continuum
+        if self._ground_truth_annotators is not None:
+            return
+        if ground_truth_annotators is None:""", "R-C05-2")
+B("C05", "sampler-init/log-before-super", SAM, _STAT_INIT,
+  """        logging.debug("measuring the reference")
+""" + _STAT_INIT)
+B("C05", "sampler-init/keyword-ground-truth", SAM, _STAT_INIT,
+  """        super().init_sampling(reference_continuum, ground_truth_annotators=ground_truth_annotators)
+        self._set_gap_information()""")
+_UA_INIT = """        self._n_tuple: UnitsTuple = n_tuple
+        self._disorder: Optional[float] = None"""
+M("C17", "ua-record/through-sorted-dict", ALI, _UA_INIT,
+  """        self._n_tuple: UnitsTuple = list(SortedDict(n_tuple).items())
+        self._disorder: Optional[float] = None""", "R-C17-1", "a repeated annotator collapses to one slot before check() sees it")
+M("C01", "ua-record/through-dict", ALI, _UA_INIT,
+  """        self._n_tuple: UnitsTuple = list(dict(n_tuple).items())
+        self._disorder: Optional[float] = None""", "R-C01-4")
+B("C17", "ua-record/list-copy", ALI, _UA_INIT,
+  """        self._n_tuple: UnitsTuple = list(n_tuple)
+        self._disorder: Optional[float] = None""")
+_NB = """        return sum(1 for _ in filter((lambda annot_unit: annot_unit[1] is not None), self._n_tuple))"""
+M2("C12", "ua-record/nb-units-cached-not-refreshed",
+   [(ALI, _UA_INIT, _UA_INIT + """
+        self._nb_units: int = sum(1 for _, unit in n_tuple if unit is not None)"""),
+    (ALI, _NB, "        return self._nb_units")], "R-C12-1", "stale after the n_tuple setter")
+B2("C12", "ua-record/nb-units-cached-and-refreshed",
+   [(ALI, _UA_INIT, _UA_INIT + """
+        self._nb_units: int = sum(1 for _, unit in n_tuple if unit is not None)"""),
+    (ALI, """        self._n_tuple = n_tuple
+        self._disorder = None""", """        self._n_tuple = n_tuple
+        self._nb_units = sum(1 for _, unit in n_tuple if unit is not None)
+        self._disorder = None"""),
+    (ALI, _NB, "        return self._nb_units")], "every writer of the tuple refreshes the count")
+M2("C12", "ua-record/nb-units-refreshed-with-length",
+   [(ALI, _UA_INIT, _UA_INIT + """
+        self._nb_units: int = sum(1 for _, unit in n_tuple if unit is not None)"""),
+    (ALI, """        self._n_tuple = n_tuple
+        self._disorder = None""", """        self._n_tuple = n_tuple
+        self._nb_units = sum(1 for _ in n_tuple if _ is not None)
+        self._disorder = None"""),
+    (ALI, _NB, "        return self._nb_units")], "R-C12-1", "the refreshed count includes the empty slots")
+_ABS = """    def compile_d_mat(self):
+        delta_empty = self.delta_empty
+
+        @dissimilarity_dec
+        def d_mat(unit1: np.ndarray, unit2: np.ndarray) -> float:
+            return (0 if unit1[3] == unit2[3] else 1) * delta_empty
+        return d_mat"""
+M("C09", "shared-kernel/class-level-memo", DIS, _ABS,
+  """    _shared = None
+
+    def compile_d_mat(self):
+        if AbsoluteCategoricalDissimilarity._shared is None:
+            delta_empty = self.delta_empty
+
+            @dissimilarity_dec
+            def d_mat(unit1: np.ndarray, unit2: np.ndarray) -> float:
+                return (0 if unit1[3] == unit2[3] else 1) * delta_empty
+            AbsoluteCategoricalDissimilarity._shared = d_mat
+        return AbsoluteCategoricalDissimilarity._shared""", "R-C09-2", "the first instance's delta_empty serves every later instance")
+M("C04", "shared-kernel/type-self-memo", DIS, _ABS,
+  """    _shared = None
+
+    def compile_d_mat(self):
+        if type(self)._shared is None:
+            delta_empty = self.delta_empty
+
+            @dissimilarity_dec
+            def d_mat(unit1: np.ndarray, unit2: np.ndarray) -> float:
+                return (0 if unit1[3] == unit2[3] else 1) * delta_empty
+            type(self)._shared = d_mat
+        return type(self)._shared""", "R-C04-1")
+M("C04", "derived-table/wrapped-prescaled", DIS,
+  """        self._matrix = matrix
+        super().__init__(categories, delta_empty)
+
+    def compile_d_mat(self):
+        matrix = self._matrix
+        delta_empty = self.delta_empty
+
+        @dissimilarity_dec
+        def d_mat(unit1: np.ndarray, unit2: np.ndarray) -> float:
+            return matrix[np.int32(unit1[3]), np.int32(unit2[3])] * delta_empty""",
+  """        self._matrix = matrix
+        self._weighted = np.ascontiguousarray(matrix * np.float32(delta_empty), dtype=np.float32)
+        super().__init__(categories, delta_empty)
+
+    def compile_d_mat(self):
+        matrix = self._weighted
+
+        @dissimilarity_dec
+        def d_mat(unit1: np.ndarray, unit2: np.ndarray) -> float:
+            return matrix[np.int32(unit1[3]), np.int32(unit2[3])]""", "R-C04-1", "scaled once at construction; the delta_empty setter no longer reaches the kernel")
+_GLPK_SOFT = """            logging.warning("CBC solver not installed. Using GLPK.")
+            cp.Problem(cp.Minimize(disorders.T @ x), [A @ x >= 1]).solve(solver=cp.GLPK_MI)"""
+_GLPK_HELPER = '''
+
+def _solve_with_glpk(objective, occurrences, at_least=1, at_most=1):
+    logging.warning("CBC solver not installed. Using GLPK.")
+    constraints = []
+    if at_least is not None:
+        constraints.append(at_least <= occurrences)
+    if at_most is not None:
+        constraints.append(occurrences <= at_most)
+    cp.Problem(objective, constraints).solve(solver=cp.GLPK_MI)
+
+
+def _compute_best_alignment_job(dissimilarity: AbstractDissimilarity,'''
+M2("C11", "flag-helper/soft-fallback-default-at-most", [
+    (CONT, _GLPK_SOFT, "            _solve_with_glpk(cp.Minimize(disorders.T @ x), A @ x, 1)"),
+    (CONT, "\n\ndef _compute_best_alignment_job(dissimilarity: AbstractDissimilarity,", _GLPK_HELPER)], "R-C11-1",
+   "the helper's default at_most=1 turns the soft fallback into a partition")
+B2("C11", "flag-helper/soft-fallback-no-upper-bound", [
+    (CONT, _GLPK_SOFT, "            _solve_with_glpk(cp.Minimize(disorders.T @ x), A @ x, 1, None)"),
+    (CONT, "\n\ndef _compute_best_alignment_job(dissimilarity: AbstractDissimilarity,", _GLPK_HELPER)],
+   "literal None folds the upper-bound branch away")
